@@ -4,6 +4,8 @@ EXTENDS Alloc
 \* two modules, denominators of 4: empty map, full, half/half, quarter/three quarters, explicit zero entry
 RV6 == { <<-1, -1>>, <<4, -1>>, <<2, 2>>, <<1, 3>>, <<0, 1>>, <<-1, 3>> }
 RV4 == { <<-1, -1>>, <<2, 2>>, <<0, 1>>, <<4, -1>> }
+RV3 == { <<-1, -1>>, <<2, 2>>, <<0, 1>> }
+Thr2 == { <<1, 2>>, <<1, 1>> }
 Owner == <<4, -1>>
 ThrAll == { <<0, 1>>, <<1, 4>>, <<1, 2>>, <<3, 4>>, <<1, 1>> }
 Thr3 == { <<1, 4>>, <<1, 2>>, <<1, 1>> }
